@@ -21,7 +21,8 @@ Styles == {"reflect", "reflect-ctx", "reflect-ctx-mod", "gofunc", "gomodfunc"}
 Forms == {"call", "stack"}
 
 CONSTANTS MaxSmall,      \* exhaustive bound on parameter-list length
-          CliffLens      \* lengths of the long homogeneous / alternating lists
+          CliffLens,     \* lengths of the long homogeneous / alternating lists
+          WideLens, WideTypes  \* parameter counts / types of the signatures that are long on both sides
 
 Rep(t, n) == [i \in 1..n |-> t]
 Alt(a, b, n) == [i \in 1..n |-> IF i % 2 = 1 THEN a ELSE b]
@@ -33,7 +34,10 @@ SmallSigs == {[params |-> p, results |-> r] : p \in Lists(MaxSmall), r \in Lists
 CliffSigs == {[params |-> Rep(t, n), results |-> <<t>>] : t \in Types, n \in CliffLens} \cup
              {[params |-> Alt(a, b, n), results |-> <<a, b>>] : a \in {"i32", "i64"}, b \in {"f32", "f64"}, n \in CliffLens} \cup
              {[params |-> <<>>, results |-> Rep(t, n)] : t \in Types, n \in {3, 7, 10}} \cup
-             {[params |-> Rep("i32", 6) \o Rep(t, n), results |-> <<t>>] : t \in {"i64", "f64", "externref"}, n \in {1, 2, 3, 4}}
+             {[params |-> Rep("i32", 6) \o Rep(t, n), results |-> <<t>>] : t \in {"i64", "f64", "externref"}, n \in {1, 2, 3, 4}} \cup
+             \* many parameters AND many results: both spill to the stack, and the result area lies behind the parameter area
+             {[params |-> Rep(t, n), results |-> Rep(t, m)] : t \in WideTypes, n \in WideLens, m \in {9, 10, 11, 12}} \cup
+             {[params |-> Alt(a, b, n), results |-> Alt(b, a, m)] : a \in {"i64"}, b \in {"f64"}, n \in WideLens, m \in {17, 20, 21}}
 
 VARIABLES pending, out
 vars == <<pending, out>>
